@@ -23,6 +23,23 @@ def datetime_to_ids(values):
     return numpy.where(numpy.isnat(values), numpy.nan, out.astype('float64'))
 
 
+def declare_first(ds, dims):
+    """Rebuild the dataset so that a variable whose first dimension is one of `dims` is declared first: Dataset.sizes /
+    Dataset.dims then list that dimension (x / i) BEFORE its partner (y / j) although the convention's order is (y, x)."""
+    names = list(ds.variables)
+    first = [n for n in names if ds.variables[n].dims and ds.variables[n].dims[0] in dims]
+    if not first:
+        return ds
+    out = xarray.Dataset(attrs=dict(ds.attrs))
+    for n in first + [n for n in names if n not in first]:
+        if n in ds.coords:
+            out = out.assign_coords({n: ds.variables[n]})
+        else:
+            out[n] = ds.variables[n]
+    out.encoding = dict(ds.encoding)
+    return out
+
+
 class Kind:
     def __init__(self, name, dims, shape):
         self.name = name
@@ -180,6 +197,8 @@ class Model:
         if coords:
             ds = ds.assign_coords(coords)
         ds.attrs.update(self.attrs)
+        if self.encoding.get('x_first'):
+            ds = declare_first(ds, {k.dims[-1] for k in self.kinds.values() if len(k.dims) == 2})
         return ds
 
     def materialise(self, rng, workdir, p_disk=0.25):
